@@ -86,7 +86,7 @@ func Drive(out io.Writer, seed int64, runs, length int) (map[string]int, error) 
 					"amt": d["amt"], "base": d["l1denom"], "height": int64(5), "hook": M{"kind": "none", "signer": "", "msgs": []any{}}, "fault": "none"}}
 			case w < 56:
 				d := pick(r, []string{"d1", "d1", "d2", "d3"})
-				e = M{"chain": "L2", "e": M{"type": "InitiateTokenWithdrawal", "signer": pick(r, bUsers), "to": pick(r, []string{"u1", "u2", "u3", "u1", l1.BadNotBech32}), "denom": "l2/1/" + d, "amt": int64(r.Intn(15))}}
+				e = M{"chain": "L2", "e": M{"type": "InitiateTokenWithdrawal", "signer": pick(r, bUsers), "to": pick(r, []string{"u1", "u2", "u3", "u1", "up:u2", l1.BadNotBech32}), "denom": "l2/1/" + d, "amt": int64(r.Intn(15))}}
 			case w < 62:
 				d := pick(r, []string{"d1", "d2"})
 				e = M{"chain": "L2", "e": M{"type": "BankSend", "signer": pick(r, bUsers), "to": pick(r, bUsers), "denom": "l2/1/" + d, "amt": int64(1 + r.Intn(5))}}
